@@ -2,6 +2,8 @@
 use crate::report::Shard;
 
 pub mod c01_04;
+pub mod c05;
+pub mod c06;
 
 pub struct Args {
     pub prop: String,
@@ -32,6 +34,8 @@ pub fn run(args: &Args) -> Shard {
     let mut sh = Shard::new(&args.prop, &args.tier, &args.build, args.seed, args.shard, args.nshards);
     match args.prop.as_str() {
         "C01" | "C02" | "C03" | "C04" => c01_04::run(args, &mut sh),
+        "C05" => c05::run(args, &mut sh),
+        "C06" => c06::run(args, &mut sh),
         "DBG" => { let mut a2 = Args { prop: "C03".into(), tier: args.tier.clone(), build: args.build.clone(), seed: args.seed, shard: 0, nshards: 1, replay: None, scale: 1000 }; a2.seed = args.seed; c01_04::debug_mismatch(&a2) }
         p => sh.inconclusive.push(format!("no check implemented for {}", p)),
     }
